@@ -46,4 +46,4 @@ def rule_writer_payload(facts, rep, rid):
                     rep.violation(rid, key, "; ".join(bad) + ": destination and title change places when a table is written", loc(f, t))
                 else:
                     rep.ok(rid, key, "dest_url <- .0, title <- .1", loc(f, t))
-    rep.floor(rid, "Tag::Image / Tag::Link constructions in the table-cell writer", n, 3)
+    rep.floor(rid, "Tag::Image / Tag::Link constructions in the table-cell writer", n, 2)
